@@ -73,7 +73,7 @@ func genOp(t *rapid.T, approx map[string]int) kit.Cmd {
 		return c("lset", k, idx(t, "i"), elem(t))
 	case 10:
 		approx[k] = 0
-		return c("lrem", k, gen.Pick(t, "cnt", "0", "1", "-1", "2", "-2", "7", "-7", "x"), elem(t))
+		return c("lrem", k, gen.Pick(t, "cnt", "0", "1", "-1", "2", "-2", "7", "-7", "x", "9223372036854775807", "-9223372036854775808", "-9223372036854775807"), elem(t))
 	case 11:
 		approx[k] = 0
 		return c("ltrim", k, idx(t, "s"), idx(t, "e"))
